@@ -409,6 +409,50 @@ def long_member_events(ctx, rnd, quick):
     return bases, events
 
 
+def deep_level_groups(ctx, rnd, quick):
+    """Slowly growing classes (two classical patterns, a few hundred members at length 8-9) listed up to length 12 (13):
+    every level step is handed to TLC in slices (LevelStep / LevelSound).  Returns [(bases, events)]."""
+    s3, s4 = util.perms_of(3), util.perms_of(4)
+    chosen = [classical((0, 2, 1), (3, 2, 1, 0))]
+    tries = 0
+    while len(chosen) < (2 if quick else 8) and tries < 200:
+        tries += 1
+        b = classical(rnd.choice(s3), rnd.choice(s4))
+        if b in chosen or contains(b["elems"][1], b["elems"][0]):
+            continue
+        Av.clear_cache()
+        c8 = make_av(b, tries).count(8)
+        if 40 <= c8 <= 260:                      # neither finite-and-empty nor exponential (the choice only selects inputs)
+            chosen.append(b)
+    top = 12 if quick else 13
+    groups = []
+    for b in chosen:
+        Av.clear_cache()
+        av = make_av(b, 1)
+        st, levels = util.call(lambda: [sorted(tuple(p) for p in av.of_length(n)) for n in range(top + 1)])
+        if st == "raise":
+            ctx.violation({"kind": "deep levels", "basis": b}, "NoException", "levels 0..%d" % top, levels)
+            continue
+        events = [{"op": "Reset"}]
+        for n in range(6, top):
+            prev, nxt = [list(p) for p in levels[n]], [list(p) for p in levels[n + 1]]
+            nsl = max(1, len(prev) * (n + 1) // 1500)
+            for k in range(nsl):
+                events.append({"op": "LevelStep", "b": 1, "n": n, "prev": prev[k::nsl], "next": nxt, "proj": []})
+            msl = max(1, len(nxt) // 400)
+            for k in range(msl):
+                events.append({"op": "LevelSound", "b": 1, "n": n + 1, "members": nxt[k::msl], "proj": []})
+        events.append({"op": "LevelSound", "b": 1, "n": 6, "members": [list(p) for p in levels[6]], "proj": []})
+        ctx.case(("deep", json.dumps(b["elems"])), nontrivial=True, n=sum(len(x) for x in levels))
+        # several validation jobs per class, so that the slices are judged side by side
+        body = events[1:]
+        for k in range(0, len(body), 6):
+            groups.append(([b], [{"op": "Reset"}] + body[k:k + 6]))
+    Av.clear_cache()
+    ctx.note("deep_levels", {"classes": [b["elems"] for b in chosen], "up_to_length": top, "validation_jobs": len(groups)})
+    return groups
+
+
 def dbg(msg):
     import os, sys, time
     if os.environ.get("VERIF_DEBUG"):
@@ -542,6 +586,7 @@ def run(ctx):
     if ninter == 0:
         ctx.drift("no call could be interrupted inside permuta/perm_sets/permset.py (file moved?): interrupted histories not exercised")
     groups.append(long_member_events(ctx, rnd, quick))
+    groups += deep_level_groups(ctx, rnd, quick)
     for doc in util.weak_hash_finish(ctx, weak, "c02"):
         bs = doc["bases"]
         for b in bs:          # (JSON turned the tuples into lists)
@@ -554,7 +599,7 @@ def run(ctx):
         k = {"Bases": ("<-", "BasesDef"), "Ops": ("<-", "OpsDef"), "MaxLen": tmax + 1, "MaxInst": 9, "MaxIts": 9}
         return validate(ctx, events, mod, k)
     import concurrent.futures
-    with concurrent.futures.ThreadPoolExecutor(max_workers=6) as ex:
+    with concurrent.futures.ThreadPoolExecutor(max_workers=14) as ex:
         verdicts = list(ex.map(validate_group, groups))
     dbg("histories validated")
     for (bs, events), v in zip(groups, verdicts):
